@@ -82,8 +82,10 @@ fn uid_of(spec: &RecSpec) -> UserId {
     }
 }
 
-/// Build the record; returns (record, genuine?)
-fn build(spec: &RecSpec) -> (PeerDHTRecord, bool) {
+/// Build the record; returns (record, genuine?). Signed base records are memoised per case so that a record
+/// presented again (altered or not) carries the *same* signature bytes - ML-DSA signing is randomised, a
+/// re-signed copy would never meet the first one in the cache.
+fn build(spec: &RecSpec, memo: &mut std::collections::HashMap<String, PeerDHTRecord>) -> (PeerDHTRecord, bool) {
     let k = keys();
     let ki = spec.key as usize % 4;
     let n_ep = spec.endpoints.clamp(1, 3);
@@ -106,7 +108,16 @@ fn build(spec: &RecSpec) -> (PeerDHTRecord, bool) {
             }
         }
         _ => {
-            r.sign(&k[ki].1).expect("sign");
+            let mut base = spec.clone();
+            base.mutation = Mutation::None;
+            let memo_key = serde_json::to_string(&base).unwrap_or_default();
+            match memo.get(&memo_key) {
+                Some(signed) => r = signed.clone(),
+                None => {
+                    r.sign(&k[ki].1).expect("sign");
+                    memo.insert(memo_key, r.clone());
+                }
+            }
         }
     }
     match &spec.mutation {
@@ -180,8 +191,9 @@ fn run_case(c: &Case) -> Verdict {
     let mut seen_keys: Vec<(Vec<u8>, u64, u64, bool)> = Vec::new(); // (uid, seq, ts, genuine)
     let mut forged_after_genuine = false;
     let mut distinct_cache_keys = std::collections::HashSet::new();
+    let mut memo = std::collections::HashMap::new();
     for (i, spec) in c.presentations.iter().enumerate() {
-        let (rec, genuine) = build(spec);
+        let (rec, genuine) = build(spec, &mut memo);
         let direct = rec.verify_signature().is_ok();
         if direct && !genuine {
             let why = if spec.uid != Uid::Derived && matches!(spec.mutation, Mutation::None | Mutation::SignedByOther(_)) { "user-id-not-bound-to-embedded-key" } else { "altered-or-foreign-record-accepted" };
@@ -275,7 +287,25 @@ pub fn run(run: &Run) {
     let sh = shards_for(run.tier);
     let _ = keys();
     let len = run.tier.pick(20usize, 200);
-    let case = move || (prop_oneof![3 => 1u8..=8, 1 => Just(0u8)], prop::collection::vec(rec_spec(), 1..len)).prop_map(|(capacity, presentations)| Case { capacity, presentations });
+    // a presentation is either a fresh record or an earlier one presented again with exactly one other alteration
+    // (so genuine and altered copies that differ in a single field meet in one cache)
+    let step = || prop_oneof![1 => rec_spec().prop_map(|r| (None, r)), 1 => (any::<u16>(), rec_spec()).prop_map(|(i, r)| (Some(i), r))];
+    let case = move || {
+        (prop_oneof![3 => 1u8..=8, 1 => Just(0u8)], prop::collection::vec(step(), 1..len)).prop_map(|(capacity, steps)| {
+            let mut presentations: Vec<RecSpec> = Vec::new();
+            for (again, r) in steps {
+                match again {
+                    Some(i) if !presentations.is_empty() => {
+                        let mut base = presentations[idx(i, presentations.len())].clone();
+                        base.mutation = r.mutation;
+                        presentations.push(base);
+                    }
+                    _ => presentations.push(r),
+                }
+            }
+            Case { capacity, presentations }
+        })
+    };
     run.prop_f("history", run.tier.pick(600, 15_000), sh, case, run_case);
     let b = (prop_oneof![Just(0u16), Just(1), Just(255), Just(256), 2u16..600], prop_oneof![Just(0u8), Just(1), Just(16), Just(17), 0u8..24], prop_oneof![Just(0u32), Just(1), Just(86_400), Just(86_401), any::<u32>()]).prop_map(|(name_len, endpoints, ttl)| BoundCase { name_len, endpoints, ttl });
     run.prop("bounds", run.tier.pick(600, 6000), sh, b, run_bounds);
